@@ -175,3 +175,29 @@ def find_calls(func_node, predicate):
     from .model import walk_own
 
     return [n for n in walk_own(func_node) if isinstance(n, ast.Call) and predicate(n)]
+
+
+def init_literal_attrs(model, cls):
+    """
+    Attributes a class's ``__init__`` sets unconditionally to a literal (``self.x = 0`` / ``None`` / ``[]`` / ``{}``):
+    tables that build the object by hand (because the interesting attributes are abstract) start from these, so that a
+    new bookkeeping attribute is modelled with its real initial value instead of being unknown.
+    """
+    import ast
+
+    init = model.lookup_method(cls, "__init__")
+    result = {}
+    if init is None:
+        return result
+    for statement in init.node.body:
+        if isinstance(statement, ast.Assign) and len(statement.targets) == 1:
+            target = statement.targets[0]
+            if isinstance(target, ast.Attribute) and isinstance(target.value, ast.Name) and target.value.id == "self":
+                value = statement.value
+                if isinstance(value, ast.Constant):
+                    result[target.attr] = value.value
+                elif isinstance(value, (ast.List, ast.Tuple, ast.Set)) and not value.elts:
+                    result[target.attr] = {ast.List: list, ast.Tuple: tuple, ast.Set: set}[type(value)]()
+                elif isinstance(value, ast.Dict) and not value.keys:
+                    result[target.attr] = {}
+    return result
